@@ -25,6 +25,7 @@ import (
 	"github.com/ethereum/go-ethereum/common"
 	ethtypes "github.com/ethereum/go-ethereum/core/types"
 	"github.com/ethereum/go-ethereum/crypto"
+	abci "github.com/tendermint/tendermint/abci/types"
 	tmproto "github.com/tendermint/tendermint/proto/tendermint/types"
 	"github.com/tharsis/ethermint/crypto/ethsecp256k1"
 	"github.com/tharsis/ethermint/server/config"
@@ -300,14 +301,24 @@ func c17Pow10(n int64) sdk.Int {
 	return sdk.NewIntFromBigInt(new(big.Int).Exp(big.NewInt(10), big.NewInt(n), nil))
 }
 
-func newC17World() *c17World {
-	a := app.Setup(false, nil)
+// c17UnbondingTime: staking parameter of the worlds (short, so that maturities are reached inside a history while the
+// governance periods of two days are not)
+const c17UnbondingTime = 6 * time.Hour
+
+func newC17World() *c17World { return newC17WorldOn(app.Setup(false, nil), true) }
+
+// foreign: plant coins of a second denomination in module accounts (targets of the `burn` operation). Not on the
+// committed chain: the crisis module's invariants (run every 5th block there) rightly reject such coins.
+func newC17WorldOn(a *app.Teleport, foreign bool) *c17World {
 	ctx := a.BaseApp.NewContext(false, tmproto.Header{Height: 1, ChainID: "teleport_9000-1", Time: c17BlockTime})
 	w := &c17World{app: a, base: ctx, named: map[string]string{}}
 	w.denom = a.StakingKeeper.BondDenom(ctx)
 	w.stakingA = common.HexToAddress(syscontracts.StakingContractAddress)
 	w.govA = common.HexToAddress(syscontracts.GovContractAddress)
 	w.obk = adbank.NewOverwriteBankKeeper(a.BankKeeper.(bankkeeper.BaseKeeper))
+	sp := a.StakingKeeper.GetParams(ctx)
+	sp.UnbondingTime = c17UnbondingTime
+	a.StakingKeeper.SetParams(ctx, sp)
 
 	// validators: three bonded (self delegation 5e18, 7e18, 9e18), created through the real handler
 	for i := 0; i < 3; i++ {
@@ -364,7 +375,12 @@ func newC17World() *c17World {
 		}
 		w.proxies = append(w.proxies, addr)
 	}
-	for _, m := range []string{govtypes.ModuleName, stakingtypes.BondedPoolName, "distribution"} {
+	// one account rich enough for delegations of 2^64 … 2^128 (boundary values of the amount field)
+	c17Fund(a, ctx, w.eoas[1].Bytes(), w.denom, sdk.NewIntFromBigInt(new(big.Int).Lsh(big.NewInt(1), 130)))
+	for _, m := range []string{govtypes.ModuleName, stakingtypes.BondedPoolName, stakingtypes.NotBondedPoolName, "distribution"} {
+		if !foreign {
+			break
+		}
 		c := sdk.NewCoins(sdk.NewCoin("uatom", sdk.NewInt(5000)))
 		if err := a.BankKeeper.MintCoins(ctx, "aggregate", c); err != nil {
 			panic(err)
@@ -376,11 +392,11 @@ func newC17World() *c17World {
 	w.plain = common.BytesToAddress([]byte{0xc1, 0x70, 0x00, 0x00, 0xee})
 	c17Fund(a, ctx, w.plain.Bytes(), w.denom, c17Pow10(18))
 
-	// governance: proposal 1 in voting period, proposal 2 in deposit period
+	// governance: proposals 1 and 3 in voting period, proposal 2 in deposit period
 	govParams := a.GovKeeper.GetDepositParams(ctx)
 	minDep := govParams.MinDeposit
 	proposer := sdk.AccAddress(w.eoas[2].Bytes())
-	for i, dep := range []sdk.Coins{minDep, sdk.NewCoins()} {
+	for i, dep := range []sdk.Coins{minDep, sdk.NewCoins(), minDep} {
 		content := govtypes.NewTextProposal(fmt.Sprintf("p%d", i), "c17")
 		if len(dep) > 0 && dep[0].Denom != w.denom {
 			c17Fund(a, ctx, proposer, dep[0].Denom, dep[0].Amount)
@@ -395,7 +411,10 @@ func newC17World() *c17World {
 	}
 	p1, _ := a.GovKeeper.GetProposal(ctx, 1)
 	p2, _ := a.GovKeeper.GetProposal(ctx, 2)
-	if p1.Status != govtypes.StatusVotingPeriod || p2.Status != govtypes.StatusDepositPeriod {
+	p3, _ := a.GovKeeper.GetProposal(ctx, 3)
+	// block height 1 begins for real (distribution records the proposer, evm / feemarket set up their block state)
+	a.BeginBlocker(ctx, abci.RequestBeginBlock{Header: ctx.BlockHeader()})
+	if p1.Status != govtypes.StatusVotingPeriod || p2.Status != govtypes.StatusDepositPeriod || p3.Status != govtypes.StatusVotingPeriod {
 		panic("c17: proposal setup")
 	}
 	w.reset()
